@@ -297,6 +297,19 @@ def copy_task(task: tuple) -> dict:
     return part.out()
 
 
+def replay_case(raw: dict, part: Part) -> None:
+    backends.setup_determinism()
+    backends.sqlite_template()
+    if "sampler" in raw:
+        sts = (raw["storage"],) if "storage" in raw else ()
+        task_fn((raw["sampler"], raw["pruner"], raw["program"], raw["seed"], sts))["viol"]
+        out = task_fn((raw["sampler"], raw["pruner"], raw["program"], raw["seed"], sts))
+    else:
+        out = copy_task(("copy", raw["from"], raw["to"]))
+    for k, v in out["viol"].items():
+        part.violation(k, raw)
+
+
 def run(tier: str, replay: str | None = None) -> int:
     backends.setup_determinism()
     ctx = Ctx(PID, tier, "model_checking")
